@@ -130,7 +130,7 @@ def move_staticmethod_static_scope(source: str, preserve: Collection[str]) -> st
             ):
                 class_attribute_accesses.add(node)
             else:
-                attributes_to_preserve.add(node.value.id)
+                attributes_to_preserve.add(node.attr)
 
     static_names = {funcdef.name for funcdef in parsing.iter_funcdefs(root)} | preserve
     name_replacements = {}
